@@ -415,6 +415,12 @@ def rule_r3(repo):
         ('the same helper sequence object used twice, nested', (lambda h: [h, SEQ(361002, [E(1001), h, E(12101)]), E(7004)])(SEQ(360002, [DEL([])])),
          [(101000, [(361002, [1001, (101000, [12101])])]), 7004]),
         ('sequence with ordinary members recursed', [SEQ(301001, [E(1001), SEQ(360001, [DEL([])]), E(12101)])], [(301001, [1001, (101000, [12101])])]),
+        # the helper is recognised by its definition in the stream (a replication without members), not by the number a dictionary gives it
+        ('helper sequence under another number', [SEQ(363210, [DEL([])]), E(12101), E(1001)], [(101000, [12101]), 1001]),
+        ('helper sequences under other numbers, nested', [SEQ(361900, [DEL([])]), SEQ(361002, [E(1001), SEQ(348017, [DEL([])]), E(12101)]), E(7004)],
+         [(101000, [(361002, [1001, (101000, [12101])])]), 7004]),
+        ('helper numbered 360005 at the end of a sequence body', [SEQ(361001, [E(1001), SEQ(360005, [DEL([])]), SEQ(361003, [E(12101)])]), E(7004)],
+         [(361001, [1001, (101000, [(361003, [12101])])]), 7004]),
     ]
     for name, tree, want in cases:
         it = F(repo, None)
